@@ -81,7 +81,10 @@ CHECKS.update({
              "the integrator buffer the returned rows are the requested points and never change iff the wrapper copies "
              "them (counterexample without the copy).  Every entry point x method x output option is run on random "
              "bounded-rate and catalogue models; the rows observed after every step and the returned table are "
-             "validated by TLC (row count, origin row, immutability, |row - ref| <= tol).",
+             "validated by TLC (row count, origin row, immutability, |row - ref| <= tol); a set-up event binds the callables handed "
+             "to scipy to the specification's f and df/dx (orientation included); grids containing the initial time or a repeated "
+             "time and initial times other than 0 are generated; on a stiff instance explicit methods must refuse (Refuse action) "
+             "and any returned row is validated against a Radau reference.",
         design="5 C02, 3.6, 4.3",
         note="Trusted base: scipy DOP853 (rtol 1e-12) on the spec-derived right-hand side; catalogue transcriptions in "
              "engine/catalogue.py; tolerances 1e-5 / 1e-7 relative (two orders above the code's solver settings)."),
@@ -105,7 +108,8 @@ CHECKS.update({
              "scale*rate = 1 (rate = specification polynomial evaluated exactly), none for zero-rate events, chosen event "
              "= unique minimum, waiting time = that minimum, draws from the global stream; the first-reaction theorem "
              "then gives the law for every stream.  Second line: SIR final-size law (jump chain enumerated by TLC, exact "
-             "Fractions) and linear-chain occupancy against exact binomial acceptance regions (false alarm < 1e-8).",
+             "Fractions) and linear-chain occupancy against exact binomial acceptance regions (false alarm < 1e-8), also through "
+             "the per-run call of the parallel route (one generator per draw).",
         design="5 C05",
         note="numpy's exponential sampler trusted; if the draw pattern is not first-reaction shaped the mechanism is not "
              "judged and only the law test applies."),
@@ -116,7 +120,8 @@ CHECKS.update({
         text="Symbolic clause: the specification's ODE components sum to the zero polynomial for transition-only "
              "definitions (exhaustive small scope; random full size incl. atoms, compared with PyGOM's report).  "
              "Deterministic clause: TR_Integrator requires |sum(row) - sum(x0)| <= tol on every observed row of closed "
-             "models.  Stochastic clause: TR_Jump requires exact equality of the total on every recorded state.",
+             "models.  Stochastic clause: TR_Jump requires exact equality of the total on every recorded state; closed models with "
+             "fractional magnitudes (outside the integer trace format) are judged directly on every reported state vector.",
         design="5 C10",
         note="Deterministic tolerance as C02."),
     "C11": dict(
